@@ -1,6 +1,7 @@
 package hx
 
 import (
+	"github.com/ChrisTrenkamp/xsel/store"
 	"bytes"
 	"encoding/json"
 	"fmt"
@@ -202,6 +203,31 @@ func PullAll(p parser.Parser, limit int) (evs []Ev, failed bool, panicked bool) 
 	return evs, true, false
 }
 
+// treeAsEvents: the event stream a finished tree corresponds to (elements with their attributes and children
+// in document order, then a close event; namespace nodes are not events of their own here)
+func treeAsEvents(c store.Cursor) []Ev {
+	var out []Ev
+	var walk func(c store.Cursor)
+	walk = func(c store.Cursor) {
+		if _, isElem := c.Node().(node.Element); isElem {
+			out = append(out, evOfNode(c.Node()))
+			for _, a := range c.Attributes() {
+				out = append(out, evOfNode(a.Node()))
+			}
+			for _, k := range c.Children() {
+				walk(k)
+			}
+			out = append(out, EvClose())
+			return
+		}
+		out = append(out, evOfNode(c.Node()))
+	}
+	for _, k := range c.Children() {
+		walk(k)
+	}
+	return out
+}
+
 func evOfNode(n node.Node) Ev {
 	switch v := n.(type) {
 	case node.Namespace:
@@ -283,11 +309,19 @@ func GenJsonFamily(w *Writer, r *Rng, t Tier) error {
 			impl = "panic"
 		}
 		// the public entry point (adapter + store) decides whether the text is an error
-		if _, rerr := readJsonGuard(text); (rerr != nil) != failed && !panicked {
+		rc, rerr := readJsonGuard(text)
+		if (rerr != nil) != failed && !panicked {
 			if rerr == nil {
 				impl = "accepted-by-ReadJson-though-the-adapter-reported-an-error " + impl
 			} else {
 				impl = "err"
+			}
+		}
+		// … and the TREE it returns is the tree of exactly those events: nothing dropped, merged or reordered
+		// between the adapter and the store (a JSON tree has no namespace nodes)
+		if rerr == nil && !failed && !panicked && rc != nil {
+			if te := evsSexp(treeAsEvents(rc)); te != evsSexp(evs) {
+				impl = "tree-is-not-the-tree-of-the-events tree=" + te + " " + impl
 			}
 		}
 		meta := map[string]interface{}{"k": "json", "fam": fam, "text": text, "n": len(evs) + 1}
